@@ -23,7 +23,8 @@ Correspondence (K) with `Model/Devices.lean` (driver `drv_c13`), policy EXACT:
     vector (fillers 1), filler statistics = identity, `index_start`/`sizes` views vs the model's `sharded_plan`.
 
 Discontinuities: before two runs are compared the Newton iteration counts / `total_retries` are compared; a
-difference is a `branch-flip` (counted, both roots must be accepted or both rejected), never a disagreement.
+difference is a `branch-flip`: counted, never a disagreement; it excuses only the leaves of the parameter that owns
+the flipped statistic (from that step on), all other parameters keep being compared. eigh kinds have no branches.
 """
 import os
 import random
